@@ -55,8 +55,9 @@ class StreamFaultPatch:
         return False
 
 
-def failing_writer_cls(base, fail_after, garbage=False):
-    """A Lua writer that raises after `fail_after` lines (or emits unparseable code when garbage=True)."""
+def failing_writer_cls(base, fail_after, garbage=False, exc=None):
+    """A Lua writer that raises after `fail_after` lines (or emits unparseable code when garbage=True).  exc: the exception class
+    to raise (default InjectedFault); whatever its type, a writer that raises is a writer that raises."""
     class W(base):
         def to_lines(self):
             n = 0
@@ -65,7 +66,7 @@ def failing_writer_cls(base, fail_after, garbage=False):
                     if garbage:
                         yield b'((( end end\n'
                         return
-                    raise InjectedFault('lua writer after %d lines' % n)
+                    raise (exc or InjectedFault)('lua writer after %d lines' % n)
                 n += 1
                 yield line
             if garbage:
